@@ -528,6 +528,7 @@ STRUCTURES = [
     ("g(tacet,p)+p", [[9, 1], 1]),
 ]
 DIV_PATTERNS = [[4, 6, 1, 12], [6, 4, 12, 2], [1, 12, 3, 2], [2, 3, 4, 1], [2, 2, 2, 2]]
+DIV_PATTERNS_MORE = [[3, 4, 6, 1], [12, 6, 4, 3], [24, 1, 2, 3], [1, 1, 1, 1], [5, 2, 7, 1], [8, 12, 1, 6]]
 
 
 def gen_modes(patterns=None):
